@@ -93,10 +93,13 @@ impl From<Option<VcfGenotype>> for genotype::Result {
         match genotype {
             Some(genotype) => match &genotype[..] {
                 [a, b] => match (a.position(), b.position()) {
-                    (Some(a), Some(b)) => match Genotype::try_from_raw(a + b) {
+                    (Some(a), Some(b)) if a <= 1 && b <= 1 => match Genotype::try_from_raw(a + b) {
                         Some(genotype) => genotype::Result::Genotype(genotype),
                         None => genotype::Result::Skipped(genotype::Skipped::Multiallelic),
                     },
+                    (Some(_), Some(_)) => {
+                        genotype::Result::Skipped(genotype::Skipped::Multiallelic)
+                    }
                     _ => genotype::Result::Skipped(genotype::Skipped::Missing),
                 },
                 _ => genotype::Result::Error(genotype::Error::PloidyError),
